@@ -108,7 +108,61 @@ DIFFERENT += [
      "def f(fx, a, time, Q):\n    d = fx(a)\n    for v in d:\n        d[v] += time\n        Q.add(d[v], v)\n"),
 ]
 
+DIFFERENT += [
+    ("tuple of names built before one of them is rebound vs after",
+     "def f(a, b, g, h):\n    t = (a, b)\n    a = g(a)\n    return h(t[0], a)\n",
+     "def f(a, b, g, h):\n    a = g(a)\n    t = (a, b)\n    return h(t[0], a)\n"),
+    ("shared tuple vs shared list handed to two calls",
+     "def f(a, b, h):\n    h(1, [a, b])\n    h(2, [a, b])\n",
+     "def f(a, b, h):\n    t = [a, b]\n    h(1, t)\n    h(2, t)\n"),
+]
+
+DIFFERENT += [
+    ("read X[i] hoisted out of a short-circuit although i ranges over ANOTHER list",
+     "def f(rt, ts, n):\n    out = []\n    j = 0\n    for i in range(len(rt)):\n        while j < n and ts[j] <= ts[i]:\n            j += 1\n        out.append(j)\n    return out\n",
+     "def f(rt, ts, n):\n    out = []\n    j = 0\n    for i in range(len(rt)):\n        r = ts[i]\n        while j < n and ts[j] <= r:\n            j += 1\n        out.append(j)\n    return out\n"),
+]
+
+DIFFERENT += [
+    ("call that may change what the test reads, hoisted above the test",
+     "def f(L, h, g, k):\n    if len(L) == 0:\n        h(L)\n        return g(L)\n    h(L)\n    return k(L)\n",
+     "def f(L, h, g, k):\n    h(L)\n    if len(L) == 0:\n        return g(L)\n    return k(L)\n"),
+]
+
+DIFFERENT += [
+    ("list copied before vs after the loop that fills it through an object holding it",
+     "def f(Q, n, g):\n    times = [0]\n    Q.add(0, g, args=(times,))\n    while Q:\n        Q.pop_and_run()\n    times = times[n:]\n    return times\n",
+     "def f(Q, n, g):\n    times = [0]\n    Q.add(0, g, args=(times,))\n    times = times[n:]\n    while Q:\n        Q.pop_and_run()\n    return times\n"),
+    ("list read before vs after a call on the dict it was stored in",
+     "def f(d, k, h):\n    xs = []\n    d[k] = xs\n    h(d)\n    n = len(xs)\n    return n\n",
+     "def f(d, k, h):\n    xs = []\n    d[k] = xs\n    n = len(xs)\n    h(d)\n    return n\n"),
+]
+
+DIFFERENT += [
+    ("value read through the container before vs after its element is changed through a local alias",
+     "def f(table, k):\n    row = table[k]\n    n = len(table[k])\n    row.append(1)\n    return n\n",
+     "def f(table, k):\n    row = table[k]\n    row.append(1)\n    n = len(table[k])\n    return n\n"),
+    ("alias of an element used after the slot was given a new object",
+     "def f(table, k):\n    row = table[k]\n    table[k] = []\n    row.append(1)\n    return table\n",
+     "def f(table, k):\n    table[k] = []\n    table[k].append(1)\n    return table\n"),
+    ("alias of an object (not of a part) and a later change through the other name",
+     "def f(b, c, flag):\n    a = b if flag else c\n    n = len(a)\n    b.append(1)\n    return n\n",
+     "def f(b, c, flag):\n    a = b if flag else c\n    b.append(1)\n    n = len(a)\n    return n\n"),
+]
+
 SAME = [
+    ("local alias of a table row written out although the row's content changes in between",
+     "def f(table, k, x, w):\n    table[k].remove(x)\n    table[k].update(x, w)\n    if table[k].total_weight() < 1:\n        table[k].update_total_weight()\n",
+     "def f(table, k, x, w):\n    row = table[k]\n    row.remove(x)\n    row.update(x, w)\n    if row.total_weight() < 1:\n        row.update_total_weight()\n"),
+    ("common first statement hoisted out of a branch whose else-arm is the tail",
+     "def f(a, b, g, k):\n    if a is None:\n        x = b + 1\n        return g(x)\n    x = b + 1\n    return k(x)\n",
+     "def f(a, b, g, k):\n    x = b + 1\n    if a is None:\n        return g(x)\n    return k(x)\n"),
+    ("read X[i] hoisted out of a short-circuit, i in range(len(X))",
+     "def f(rt, ts, n):\n    out = []\n    j = 0\n    for i in range(len(rt)):\n        while j < n and ts[j] <= rt[i]:\n            j += 1\n        out.append(j)\n    return out\n",
+     "def f(rt, ts, n):\n    out = []\n    j = 0\n    for i in range(len(rt)):\n        r = rt[i]\n        while j < n and ts[j] <= r:\n            j += 1\n        out.append(j)\n    return out\n"),
+    ("argument tuple shared through a name, projected and concatenated",
+     "def f(G, S, Q, status, t, v, xs):\n    status[t] = 'I'\n    S.append(1)\n    if xs:\n        Q.add(xs[0], f, args=(G, t, v, S, Q, status))\n",
+     "def f(G, S, Q, status, t, v, xs):\n    sh = (G, S, Q, status)\n    status[t] = 'I'\n    S.append(1)\n    if xs:\n        Q.add(xs[0], f, args=(sh[0], t, v) + sh[1:])\n"),
     ("guard clause vs nested if",
      "def f(s, t, L):\n    if s[t] == 'S':\n        s[t] = 'I'\n        L.append(t)\n",
      "def f(s, t, L):\n    if s[t] != 'S':\n        return\n    s[t] = 'I'\n    L.append(t)\n"),
